@@ -153,7 +153,7 @@ def tree_digest(d):
     return h.hexdigest()[:16]
 
 
-BLANK = {"e": "", "iter": 0, "itag": 0, "vtag": -3, "gtag": -3, "htag": -3, "ptag": -3, "step": 0, "k": 0,
+BLANK = {"e": "", "convknown": True, "iter": 0, "itag": 0, "vtag": -3, "gtag": -3, "htag": -3, "ptag": -3, "step": 0, "k": 0,
          "conv": False, "atend": False, "final": False, "dir": 1, "fin": [], "tmp": [], "cfg": False,
          "exists": False, "quiescent": False, "postmortem": False, "unchanged": True, "killed": False,
          "req": 0, "route": "", "cfgeq": True, "hidxok": True, "dtypeok": True, "exc": "", "src": 1,
@@ -194,6 +194,8 @@ def build_trace(sc: dict, gens: list, ref: Reference):
                 sweeps_in_call += 1
                 nxt = events[idx + 1]["event"] if idx + 1 < len(events) else ""
                 rec["conv"] = nxt == "converged"
+                # a process killed right at this event never got to report convergence
+                rec["convknown"] = not (g["killed"] and idx + 1 >= len(events))
                 conv_in_call = conv_in_call or rec["conv"]
             elif name == "converged":
                 continue
